@@ -115,6 +115,20 @@ class Engine:
             self.unknowns += 1
         return r, None
 
+    def _fresh(self, *extra):
+        s = z3.Solver()
+        s.set("timeout", self.timeout_ms)
+        s.add(*self.pc)
+        s.add(*extra)
+        t = time.time()
+        self.queries += 1
+        self.fresh_queries += 1
+        r = s.check()
+        self.solver_time += time.time() - t
+        if r == z3.unknown:
+            self.unknowns += 1
+        return r, (s.model() if r == z3.sat else None)
+
     def add(self, *terms):
         """Assumption / precondition: added to the path condition."""
         for t in terms:
@@ -195,7 +209,22 @@ class Engine:
             other = z3.Not(term) if mv else term
             r = self.check(other)
             if r == z3.unknown:
-                raise EngineError("solver unknown at branch")
+                # the incremental core gives up on some bit-vector arithmetic: ask a fresh solver
+                self.unknowns -= 1
+                r, fresh_model = self._fresh(other)
+                if r == z3.unknown:
+                    raise EngineError("solver unknown at branch")
+                if r == z3.sat:
+                    self.worklist.append((self.decisions + [False], self.hashes + [term.hash()]))
+                    d = True
+                    if not mv:
+                        self.model = None
+                    self._record(d, term)
+                    c = term
+                    self.solver.add(c)
+                    self.pc.append(c)
+                    self.decided[tid] = (d, term)
+                    return d
             if r == z3.sat:
                 other_model = self.solver.model()
                 d = True
